@@ -135,15 +135,15 @@ class Interp:
         ew = lambda f: _elementwise(f, ins)
         if name in ("add", "add_any"):
             out = ew(tm.add)
-            if self.int32_overflow: self._overflow(e, out)
+            self._wrap_or_oblige(e, out)
             return out
         if name == "sub":
             out = ew(lambda a, b: tm.add(a, tm.neg(b)))
-            if self.int32_overflow: self._overflow(e, out)
+            self._wrap_or_oblige(e, out)
             return out
         if name == "mul":
             out = ew(tm.mul)
-            if self.int32_overflow: self._overflow(e, out)
+            self._wrap_or_oblige(e, out)
             return out
         if name == "div": return ew(tm.div)
         if name == "neg": return ew(tm.neg)
@@ -281,9 +281,22 @@ class Interp:
     def _is_finite(self, a):
         return tm.TRUE          # reals; the NaN domain overrides this
 
+    def _wrap_or_oblige(self, e, out):
+        if np.dtype(e.outvars[0].aval.dtype) == np.int32:
+            if self.int32_overflow: self._overflow(e, out)
+            else:
+                for idx in np.ndindex(*out.shape):
+                    t = out[idx]
+                    if isinstance(t, T) and t.is_const and not (-INT32_MAX - 1 <= t.val <= INT32_MAX):
+                        out[idx] = const(((t.val + 2 ** 31) % 2 ** 32) - 2 ** 31, "Int")
+
     def _overflow(self, e, out):
         av = e.outvars[0].aval
         if np.dtype(av.dtype) != np.int32: return
+        for idx in np.ndindex(*out.shape):
+            t = out[idx]
+            if isinstance(t, T) and t.is_const and not (-INT32_MAX - 1 <= t.val <= INT32_MAX):
+                out[idx] = const(((t.val + 2 ** 31) % 2 ** 32) - 2 ** 31, "Int")     # two's complement wrap, as XLA does
         for t in out.flat:
             if isinstance(t, T) and not t.is_const:
                 self.ctx.oblig.append(("int32 overflow", tm.band(tm.cmp("le", const(-INT32_MAX - 1, "Int"), t),
@@ -332,11 +345,19 @@ class Interp:
             out = e.primitive.bind(*args, **e.params)
         outs = out if e.primitive.multiple_results else [out]
         res = []
-        for o in outs:
+        for o, ov in zip(outs, e.outvars):
             o = np.asarray(o)
             r = np.empty(o.shape, dtype=object)
             for idx in np.ndindex(*o.shape):
-                r[idx] = flat[int(o[idx])]
+                k = int(o[idx])
+                if 0 <= k < len(flat):
+                    r[idx] = flat[k]
+                else:
+                    # the primitive produced a value that is not one of its inputs (out-of-bounds fill: NaN for floats):
+                    # an unconstrained fresh symbol, so that no property about it can be proved
+                    self.ctx.fresh += 1
+                    r[idx] = tm.var(f"FILL!{name}!{self.ctx.fresh}", sort_of(ov.aval.dtype))
+                    self.stats["fill"] = self.stats.get("fill", 0) + 1
             res.append(r)
         return res if e.primitive.multiple_results else res[0]
 
